@@ -100,6 +100,7 @@ var specs = map[string]*propSpec{
 	"C17": c17Spec(),
 	"C02": c02Spec(),
 	"C12": c12Spec(),
+	"C18": c18Spec(),
 	"C05": chainSpec("C05", "exploration"),
 }
 
@@ -182,7 +183,7 @@ func c02Spec() *propSpec {
 
 func c12Spec() *propSpec {
 	return &propSpec{
-		ID: "C12", Harness: "poolsim", Level: "exploration", Chunk: 5, Workers: 16,
+		ID: "C12", Harness: "poolsim", Level: "exploration", Chunk: 1, Workers: 16, // one case per process: txpool keeps unexported package state (expiry timer)
 		Quick:    tierParams{Runs: 320, BudgetS: 75, PerRunS: 300, RaceRuns: 0, ShrinkAttempts: 120, ShrinkS: 120},
 		Thorough: tierParams{Runs: 16000, BudgetS: 1200, PerRunS: 900, RaceRuns: 0, ShrinkAttempts: 400, ShrinkS: 400},
 		Rule: "one case = pool options (full/opt-in RBF, expiry 1-14 days, reject-ring size, fee floor, block-commit flag, optional eviction scenario of 125 transactions of ~100 kB) + 4-120 operations, each with its own seed: submit a transaction through the peer / local / trusted path (valid, child and diamond of unconfirmed parents, double spend with lower and higher fee, orphan before parent and the parent later, corrupted signature, overspend, immature coinbase, duplicate of a pooled/rejected/mined transaction, same input twice, non-final), a descendant chain of up to 130 followed by a replacement of its root, mine a block from the pool's own fee-ordered listing / with unknown and conflicting transactions / empty, reorganise 1-3 blocks, clock jumps of 1 s - 16 days followed by Tick(), reject-ring resize, save + reload. After every operation the stated invariants are recomputed from the exported pool state and the reference ledger; a block assembled from a listing prefix must be valid per the ledger and accepted by the node. distinct_nontrivial = distinct (schedule-trace hash, final state).",
@@ -197,5 +198,25 @@ func c12Spec() *propSpec {
 			"txpool keeps its expiry timer in an unexported package variable initialised from the real clock: the simulated clock therefore starts in 2030+",
 		},
 		ExpectProbes: []string{"tx_accepted", "unconfirmed_child_accepted", "replacement_accepted", "orphan_before_parent", "block_from_pool_listing", "block_connected_with_txs", "blocks_undone", "expired_or_evicted_on_tick", "save_load", "rbf_gt_100", "pool_checked_nonempty"},
+	}
+}
+
+func c18Spec() *propSpec {
+	return &propSpec{
+		ID: "C18", Harness: "netsim", Level: "exploration", Chunk: 4, Workers: 16, HangIsViolation: true,
+		Quick:    tierParams{Runs: 400, BudgetS: 75, PerRunS: 240, RaceRuns: 0, ShrinkAttempts: 120, ShrinkS: 120},
+		Thorough: tierParams{Runs: 20000, BudgetS: 1200, PerRunS: 900, RaceRuns: 0, ShrinkAttempts: 400, ShrinkS: 400},
+		Rule: "one case = 1-4 simulated peers, each sending 1-40 messages drawn from all commands of the property's list plus unknown ones, before and after version; payloads valid (built from the node's real state: real hashes, locators, new valid headers/blocks/transactions, fully prefilled compact blocks), or valid with one structural mutation (bit flips, truncation, trailing garbage, count field replaced by other values / non-minimal / 2^64-1 encodings, empty, per-command maximum size), or random bytes; header mutations (magic, checksum, length shorter / longer / huge); delivery with fragmentation 1 byte .. whole message, pauses around the 10 ms read deadline, resets inside a message; all interleavings of readers, writers, the main-loop stub and other peers chosen by the scheduler. Oracles: Run() never returns without having closed its connection (escaped panic), the connection goroutine holds no lock whenever it re-enters Read() or ends, no message costs more than 2e6 scheduler steps, no deadlock / os.Exit / fatal error, connection goroutines end within 10 simulated s after hang-up, the main loop keeps ticking and a fresh well-behaved peer gets its pong within 5 simulated s.",
+		Components: map[string][]string{
+			"real":      append([]string{"client/network (instrumented: all handlers, FetchMessage, writing thread)", "client/peersdb on lib/others/qdb (instrumented)", "client/txpool, client/common (instrumented)"}, chainComponents["real"]...),
+			"simulated": append([]string{"transport (sim/simnet net.Conn: fragmentation, delays vs read deadline, resets, write errors)", "peers (message generators)"}, commonSim...),
+			"restated":  {"client/main.go main loop: consume network.NetBlocks (HandleNetBlock + LocalAcceptBlock reduced to HasAllParents / CachedBlocksAdd / CommitBlock) and network.NetTxs (txpool.HandleNetTx), periodic tick", "tcp_server: NewConnection + OpenCons registration for an incoming peer"},
+		},
+		Assumptions: []string{
+			"library parsers are exercised only as reached through these handlers; direct fuzzing of address / key / signature parsers is input generation (not claimed)",
+			"misbehaviour scoring and banning are not in the oracle",
+			"messages are <= 400 kB in the quick tier",
+		},
+		ExpectProbes: []string{"fresh_peer_served", "msg_valid", "msg_mutate", "msg_trunc", "msg_count", "msg_max", "msg_random"},
 	}
 }
